@@ -383,6 +383,11 @@ void h_run(Case& c) {
     {
         tbb::global_control gc(tbb::global_control::max_allowed_parallelism, (size_t)par);
         tbb::task_arena arena(mc); tbb::task_arena helper(1, 0); g_helper = &helper;
+#if TBB_USE_ASSERT
+        // known finding C16 (market::update_allotment asserts `assigned == max_workers` with max_allowed_parallelism 1, an arena whose slot is held by the
+        // external thread and a mandatory request elsewhere): the assertion-enabled leg does not enqueue into the helper arena under a limit of 1 (counted)
+        if (par == 1) { g_helper = nullptr; if (g_nest) vs_stat_add("n_excluded", 1); }
+#endif
         arena.execute([&] {
             for (auto& l : ops) {
                 std::string k = split_ws(l)[0];
